@@ -4,13 +4,16 @@ Three kinds of cases, all judged by the Lean model AsynqModel.Lib.Debug (mode `d
 
 * filter : tracebacks assembled from boilerplate and foreign lines are given to the real asynq.debug.filter_traceback.
            The REPLACEMENTS tables are extracted from the CURRENT debug.py (ast) on every run and sent to the driver, so
-           the theorem "for all tables and all line lists the output is a rendering of the input" is instantiated
-           with the tables of the tree under test; lines are abstracted to the set of pattern strings they contain
+           the theorem "for all tables without an empty pattern list and all line lists the output is a rendering of
+           the input" is instantiated with the tables of the tree under test; lines are abstracted to the set of pattern strings they contain
            (computed with Python's `in`, the only question the code asks about a line).
 * glue   : chains of 1-8 awaiting tasks with raise / re-raise / catch positions are run on the real scheduler; the
            traceback that reaches the caller is read frame by frame, format_asynq_stack() is called inside bodies and
            inside orphan tasks run after their creators finished, format_error() is applied to what arrives.
-* repr   : every asynq object kind is driven into every lifecycle state of the state table and str/repr/dump are called.
+* repr   : every asynq object kind is driven into the lifecycle states of the state table and str/repr/dump are called;
+           objects that hold a user value (scoped values, their override contexts, generator.Value, futures, items,
+           tasks) additionally hold every value SHAPE (tuples of 0-3 elements, namedtuple, dict, %-string, ...) and
+           must show that value.
 """
 import ast
 import collections
@@ -25,24 +28,43 @@ import types
 
 PID = "C18"
 LEVEL = "proof"
-LEAN_MODULES = ["AsynqModel.Theorems.C18"]
+LEAN_MODULES = ["AsynqModel.Theorems.C18", "AsynqModel.Theorems.C18Exact"]
+# headline statements first; the last block holds by construction of the model (see MANIFEST level_note)
 THEOREMS = [
+    # filter_traceback
     "AsynqModel.Debug.C18_filter_sound",
     "AsynqModel.Debug.C18_filter_spec_holds",
     "AsynqModel.Debug.C18_filter_observer_sound",
     "AsynqModel.Debug.C18_filter_id",
     "AsynqModel.Debug.C18_filter_first_match",
+    "AsynqModel.Debug.C18_filter_tablesOK_needed",
+    # gluing
     "AsynqModel.Debug.C18_glue",
+    "AsynqModel.Debug.C18_ref_passing_prefix",
+    "AsynqModel.Debug.C18_glue_crosses",
+    "AsynqModel.Debug.C18_glue_crosses_own",
+    "AsynqModel.Debug.C18_glue_crosses_hook",
     "AsynqModel.Debug.C18_glue_shape",
-    "AsynqModel.Debug.C18_extract_tb_hides_only_library",
-    "AsynqModel.Debug.C18_stack_creator_chain",
-    "AsynqModel.Debug.C18_stack_in_body",
+    "AsynqModel.Debug.C18_glue_starts_at_awaiter",
+    # the asynq stack / the whole observation of a run
+    "AsynqModel.Debug.C18_stack_events_exact",
     "AsynqModel.Debug.C18_stack_orphan_partial",
     "AsynqModel.Debug.C18_stack_orphan_counterexample",
+    "AsynqModel.Debug.C18_glue_refines_partial",
+    "AsynqModel.Debug.C18_glue_observer_exact",
     "AsynqModel.Debug.C18_glue_spec_holds_partial",
-    "AsynqModel.Debug.C18_repr_total_partial",
-    "AsynqModel.Debug.C18_repr_counterexample",
+    "AsynqModel.Debug.C18_stackSafe_exact_small",
+    # str / repr / dump / format_error
+    "AsynqModel.Debug.C18_repr_holders_total",
+    "AsynqModel.Debug.C18_bare_percent_fails",
     "AsynqModel.Debug.C18_format_error_total",
+    "AsynqModel.Debug.C18_format_error_non_exception",
+    # by construction of the model (content = the correspondence run)
+    "AsynqModel.Debug.C18_repr_total_partial",
+    "AsynqModel.Debug.C18_repr_raises_iff",
+    "AsynqModel.Debug.C18_repr_spec_holds_partial",
+    "AsynqModel.Debug.C18_repr_flags_needed",
+    "AsynqModel.Debug.C18_extract_tb_hides_only_library",
 ]
 BUILDS = {"quick": ["py"], "thorough": ["py", "cy"]}
 EXHAUSTIVE = {"quick": False, "thorough": False}
@@ -53,9 +75,12 @@ RULE = ("filter: tracebacks over the pattern tables extracted from the current d
         "depth 1 and (reduced alphabet) 2 (3 thorough) plus random chains of depth 1-8 over await style x handler "
         "(none, bare re-raise, raise e, raise new, swallow) x own raise (helper depth 0-3) x orphan x bottom (nothing, "
         "ErrorFuture, or a context hook - pause() on suspension / resume() on continuation of the innermost task blocked "
-        "on a batch item - raising through 0-3 helpers, every depth 1-4 (thorough 1-8)); repr: the full kind x state "
-        "table (exhaustive), each cell with str/repr/dump; scoped values and their override contexts additionally hold "
-        "every value shape ((), 1-, 2-, 3-tuple, nested tuple, dict, %-string, None, list) and must show that value. non-trivial = filter "
+        "on a batch item - raising through 0-3 helpers, every depth 1-4 (thorough 1-8)); repr: a fixed list of scenarios "
+        "per object kind that reaches every cell of the model's state table which public API calls can reach (incl. "
+        "`almost finished` tasks seen from a DUMP_QUEUED_RESULTS write, futures asked for their repr from inside their own "
+        "repr, format_error of non-exceptions with a traceback), each cell with str/repr/dump; scoped values, their "
+        "override contexts, generator.Value, futures, batch items and task results additionally hold every value shape "
+        "((), 1-, 2-, 3-tuple, nested tuple, namedtuple, dict, %-string, None, list) and must show that value. non-trivial = filter "
         "case with a complete and a partial run / chain where an exception crosses >= 2 task levels or an orphan "
         "asks for its stack after a creator failed / repr case with >= 3 states; distinct by case hash")
 TRUSTED = [
@@ -63,9 +88,17 @@ TRUSTED = [
     "Python harness checks/c18.py: ast extraction of the REPLACEMENTS tables and of _AsyncGenerator's attributes, "
     "mapping of frames / stack entries / output lines to tokens, classification of str/repr/dump texts by their fixed words",
     "CPython 3.12 traceback semantics (one entry per frame unwound, generator.throw with / without a traceback, "
-    "bare `raise` adds no entry), inspect.getframeinfo, traceback.format_exception, pygments, qcore.errors / qcore.inspection",
+    "bare `raise` adds no entry), `fmt % x` treating a tuple `x` as the argument list, inspect.getframeinfo, "
+    "traceback.format_exception, pygments, qcore.errors / qcore.inspection",
 ]
 ASSUMPTIONS = [
+    "filter: no entry of REPLACEMENTS has an empty pattern list (hypothesis `tablesOK` of C18_filter_sound; with one the "
+    "real function does not terminate - the harness then does not call it and the observer answers empty-pattern-list)",
+    "format_error: the first argument is None or an exception instance (the statement says `any exception`; what the "
+    "function does with other objects is modelled and compared but not judged: `inStatement`)",
+    "stack of a task run after its creator finished: judged for every chain; the THEOREM C18_glue_refines_partial "
+    "covers the chains with `stackSafe` (no orphan at or below a level that let the exception of a synchronously "
+    "called child pass) - the others are the open finding glue/stack-foreign-entry-sync",
     "chains: one awaited child per level (shared failing tasks awaited by two parents are out of the statement)",
     "consecutive traceback entries of the same frame object count as one frame (`raise e` inside a handler)",
     "values held by futures / scoped values have a working repr of their own and scoped values do not hold themselves",
@@ -442,16 +475,34 @@ def shrink(case):
                 yield {"sub": "repr", "kind": case["kind"], "only": [i]}
 
 
+def _may_hit_open_stack_finding(case):
+    """syntactic over-approximation of `not stackSafe`: some level calls its child synchronously without catching, and
+    an orphan is created at or below it (open finding glue/stack-foreign-entry-sync)"""
+    levels = case["levels"]
+    for i, L in enumerate(levels):
+        if L["await"] == "sync" and L["handler"][0] in ("pass", "bare", "named"):
+            return any(M["orphan"] for M in levels[i:])
+    return False
+
+
 def neighbours(case, rng):
+    """cases near a disagreeing one.  The framework stops the search at the first neighbour that fails the observer,
+    also when that failure is a recorded finding - so neighbours that can only re-find a recorded finding are left
+    out (they would mask the disagreement that started the search)"""
     sub = case.get("sub")
     if sub == "glue":
+        own = _may_hit_open_stack_finding(case)
         for _ in range(32):
             levels = [dict(x) for x in case["levels"]]
             i = rng.randrange(len(levels))
             levels[i] = gen_glue_random(rng, 1)["levels"][0]
-            yield {"sub": "glue", "bottom": case["bottom"], "levels": levels}
+            c = {"sub": "glue", "bottom": case["bottom"], "levels": levels}
+            if own or not _may_hit_open_stack_finding(c):
+                yield c
         for _ in range(16):
-            yield gen_glue_random(rng)
+            c = gen_glue_random(rng)
+            if own or not _may_hit_open_stack_finding(c):
+                yield c
     elif sub == "filter":
         tables = _tables_for_plan()
         tbs = gen_filter_tbs("quick", rng, tables)
@@ -459,8 +510,8 @@ def neighbours(case, rng):
         for off in range(0, min(len(tbs), 20 * TB_PER_CASE), TB_PER_CASE):
             yield {"sub": "filter", "tbs": tbs[off:off + TB_PER_CASE]}
     else:
-        for k in REPR_KINDS:
-            yield {"sub": "repr", "kind": k}
+        # the other scenarios of the same object kind (another kind's table says nothing about this disagreement)
+        yield {"sub": "repr", "kind": case["kind"]}
 
 
 def signature(case, v):
@@ -520,7 +571,10 @@ def run_filter(case):
         pos = {t: i for i, t in enumerate(inp)}
         has = [[k for k, p in enumerate(pats) if p in t] for t in inp]
         try:
-            out = adebug.filter_traceback(list(inp))
+            if any(not ps for ps, _ in tables) and inp:
+                out = [None]   # `i = i + 0`: the real function would not terminate (observer: empty-pattern-list)
+            else:
+                out = adebug.filter_traceback(list(inp))
             if not isinstance(out, list):
                 out = [None]
         except Exception:  # the outcome of the call, not a harness failure
@@ -1035,9 +1089,15 @@ class _Err(Exception):
 
 
 # values whose shape matters to `"...%s" % value`
+_Pair = collections.namedtuple("_Pair", "left right")
 SHAPES = [("emptyTuple", ()), ("tuple1", ("capybara",)), ("tuple2", ("user", 42)), ("tuple3", (1, 2, 3)),
-          ("nestedTuple", ((1, 2),)), ("dict", {"a": 1}), ("emptyDict", {}), ("percentString", "100%s and %d%% of %(x)s"),
-          ("none", None), ("list", [1, 2]), ("int", 3)]
+          ("nestedTuple", ((1, 2),)), ("namedTuple", _Pair(1, "r")), ("dict", {"a": 1}), ("emptyDict", {}),
+          ("percentString", "100%s and %d%% of %(x)s"), ("none", None), ("list", [1, 2]), ("int", 3)]
+
+
+def _holder(kind, value):
+    """abstract state of an object whose text is one format string over `value`: only the tuple-ness matters to `%`"""
+    return "(holder %s %s)" % (kind, "(tuple %d)" % len(value) if isinstance(value, tuple) else "other")
 
 
 def _mk_batching():
@@ -1141,6 +1201,43 @@ def sc_future(t):
     f = futures.Future(lambda: 1)
     f.set_value("x" * 5000)
     t.diag("valueHuge", f, "(fut 0 plain)")
+    for name, shape in SHAPES:
+        f = futures.Future(lambda shape=shape: shape)
+        f.value()
+        t.diag("value:" + name, f, "(fut 0 plain)", shows=(shape,))
+    _probe_in_repr(t, lambda p: futures.Future(lambda: p), lambda f: f.value())
+
+
+class _ReprProbe(object):
+    """a value / error whose repr asks the future that holds it for its diagnostics: the state `_in_repr = True`"""
+
+    def __init__(self, t, state):
+        self.t, self.state, self.fut, self.done = t, state, None, False
+
+    def __repr__(self):
+        if self.fut is not None and not self.done:
+            self.done = True
+            self.t.diag("insideOwnRepr", self.fut, self.state)
+        return "probe"
+
+
+class _ProbeErr(Exception):
+    def __init__(self, probe):
+        Exception.__init__(self, "probe")
+        self.probe = probe
+
+    def __repr__(self):
+        repr(self.probe)
+        return "_ProbeErr()"
+
+
+def _probe_in_repr(t, make, complete=None, err=False):
+    p = _ReprProbe(t, "(fut 1 err)" if err else "(fut 1 plain)")
+    f = make(_ProbeErr(p) if err else p)
+    if complete is not None:
+        complete(f)
+    p.fut = f
+    repr(f)
 
 
 def sc_const(t):
@@ -1155,6 +1252,9 @@ def sc_const(t):
     c = futures.ConstFuture(1)
     c.reset_unsafe()
     t.diag("afterReset", c, "(fut 0 none)")
+    for name, shape in SHAPES:
+        t.diag("value:" + name, futures.ConstFuture(shape), "(fut 0 plain)", shows=(shape,))
+    _probe_in_repr(t, futures.ConstFuture)
 
 
 def sc_errfut(t):
@@ -1166,6 +1266,9 @@ def sc_errfut(t):
         err = e
     t.diag("errorRaised", futures.ErrorFuture(err), "(fut 0 err)")
     t.diag("errorBase", futures.ErrorFuture(KeyboardInterrupt()), "(fut 0 err)")
+    for name, shape in SHAPES:
+        t.diag("error:" + name, futures.ErrorFuture(_Err(shape)), "(fut 0 err)", shows=(shape,))
+    _probe_in_repr(t, futures.ErrorFuture, err=True)
 
 
 def sc_task(t):
@@ -1309,6 +1412,46 @@ def sc_task(t):
     v = killer()
     t.diag("killedBlockedLater", v, "(task err 0 0 0 2)")
 
+    # value shapes as arguments (get_function_call_str) and as results
+    @A()
+    def echo(x, k=None):
+        yield None
+        return x
+
+    for name, shape in SHAPES:
+        tk = echo.asynq(shape, k=shape)
+        t.diag("args:" + name, tk, "(task none 0 0 1 0)")
+        tk.value()
+        t.diag("result:" + name, tk, "(task plain 0 0 0 2)", shows=(shape,))
+
+    # not computed, nothing to wait for, generator already closed: the state between the end of the body and
+    # set_value(); visible to whatever `_queue_exit` prints under DUMP_QUEUED_RESULTS - here the repr of the result
+    class ExitProbe(object):
+        task = None
+        done = False
+
+        def __repr__(self):
+            if self.task is not None and not self.done:
+                self.done = True
+                t.diag("almostFinished", self.task, "(task none 0 0 0 2)")
+            return "exitprobe"
+
+    @A()
+    def finishing(p):
+        yield None
+        p.task = scheduler.get_active_task()
+        return p
+
+    from asynq import debug as adebug
+    old_flag, old_out = adebug.options.DUMP_QUEUED_RESULTS, adebug.stdout
+    adebug.options.DUMP_QUEUED_RESULTS = True
+    adebug.stdout = io.StringIO()
+    try:
+        finishing(ExitProbe())
+    finally:
+        adebug.options.DUMP_QUEUED_RESULTS = old_flag
+        adebug.stdout = old_out
+
     # a chain of 45 blocked tasks: dump recursion stops at MAX_DUMP_INDENT
     @A()
     def deep(n, tops):
@@ -1398,6 +1541,13 @@ def sc_user_item(t):
     i = UItem(b, b)
     b.flush()
     t.diag("valueIsItsBatch", i, "(fut 0 plain)")
+    for name, shape in SHAPES:
+        b = UBatch()
+        i = UItem(shape, b)
+        b.flush()
+        t.diag("value:" + name, i, "(fut 0 plain)", shows=(shape,))
+    b = UBatch()
+    _probe_in_repr(t, lambda p: UItem(p, b), lambda i: b.flush())
 
 
 def sc_debug_batch(t):
@@ -1436,6 +1586,10 @@ def sc_debug_item(t):
     t.diag("syncPending", i, "(fut 0 none)")
     i.value()
     t.diag("syncDone", i, "(fut 0 plain)")
+    for name, shape in SHAPES:
+        i = batching.DebugBatchItem("c18-s", shape)
+        i.value()
+        t.diag("value:" + name, i, "(fut 0 plain)", shows=(shape,))
 
 
 def sc_scheduler(t):
@@ -1503,32 +1657,35 @@ def sc_scoped_value(t):
     import asynq
     from asynq import scoped_value, futures
     UBatch, UItem, UBatch2, UItem2 = _mk_batching()
+
+    def H(v):
+        return _holder("scopedValue", v)
     sv = scoped_value.AsyncScopedValue(1)
-    t.diag("default", sv, "(plain)")
+    t.diag("default", sv, H(1))
     sv.set("two")
-    t.diag("afterSet", sv, "(plain)")
+    t.diag("afterSet", sv, H("two"))
     sv.set(None)
-    t.diag("holdsNone", sv, "(plain)")
+    t.diag("holdsNone", sv, H(None))
     sv.set(futures.Future(lambda: 1))
-    t.diag("holdsFuture", sv, "(plain)")
+    t.diag("holdsFuture", sv, H(None))
     sv2 = scoped_value.AsyncScopedValue(sv)
-    t.diag("holdsScopedValue", sv2, "(plain)")
+    t.diag("holdsScopedValue", sv2, H(None))
     for name, shape in SHAPES:
-        t.diag("default:" + name, scoped_value.AsyncScopedValue(shape), "(plain)", shows=(shape,))
+        t.diag("default:" + name, scoped_value.AsyncScopedValue(shape), H(shape), shows=(shape,))
         v = scoped_value.AsyncScopedValue("x")
         v.set(shape)
-        t.diag("set:" + name, v, "(plain)", shows=(shape,))
+        t.diag("set:" + name, v, H(shape), shows=(shape,))
     cur = scoped_value.AsyncScopedValue(None)
 
     @asynq.asynq()
     def shaped(name, shape):
         with cur.override(shape):
-            t.diag("overridden:" + name, cur, "(plain)", shows=(shape,))
-            UBatch.hook = lambda b: t.diag("overridePaused:" + name, cur, "(plain)", shows=(None,))
+            t.diag("overridden:" + name, cur, H(shape), shows=(shape,))
+            UBatch.hook = lambda b: t.diag("overridePaused:" + name, cur, H(None), shows=(None,))
             yield UItem(1)
             UBatch.hook = None
-            t.diag("overrideResumed:" + name, cur, "(plain)", shows=(shape,))
-        t.diag("overrideExited:" + name, cur, "(plain)", shows=(None,))
+            t.diag("overrideResumed:" + name, cur, H(shape), shows=(shape,))
+        t.diag("overrideExited:" + name, cur, H(None), shows=(None,))
 
     for name, shape in SHAPES:
         shaped(name, shape)
@@ -1536,35 +1693,36 @@ def sc_scoped_value(t):
     @asynq.asynq()
     def body():
         with sv.override(5):
-            t.diag("overridden", sv, "(plain)")
-            UBatch.hook = lambda b: t.diag("overridePaused", sv, "(plain)")
+            t.diag("overridden", sv, H(5))
+            UBatch.hook = lambda b: t.diag("overridePaused", sv, H(None))
             yield UItem(1)
             UBatch.hook = None
-            t.diag("overrideResumed", sv, "(plain)")
-        t.diag("overrideExited", sv, "(plain)")
+            t.diag("overrideResumed", sv, H(5))
+        t.diag("overrideExited", sv, H(None))
 
     body()
 
 
-def _sc_override(t, make):
+def _sc_override(t, make, kind):
     import asynq
     UBatch, UItem, UBatch2, UItem2 = _mk_batching()
+    st = _holder(kind, 2)
     ov = make()
-    t.diag("fresh", ov, "(plain)")
+    t.diag("fresh", ov, st)
     with ov:
-        t.diag("enteredOutsideTask", ov, "(plain)")
-    t.diag("exitedOutsideTask", ov, "(plain)")
+        t.diag("enteredOutsideTask", ov, st)
+    t.diag("exitedOutsideTask", ov, st)
     ov2 = make()
 
     @asynq.asynq()
     def body():
         with ov2:
-            t.diag("active", ov2, "(plain)")
-            UBatch.hook = lambda b: t.diag("paused", ov2, "(plain)")
+            t.diag("active", ov2, st)
+            UBatch.hook = lambda b: t.diag("paused", ov2, st)
             yield UItem(1)
             UBatch.hook = None
-            t.diag("resumed", ov2, "(plain)")
-        t.diag("exited", ov2, "(plain)")
+            t.diag("resumed", ov2, st)
+        t.diag("exited", ov2, st)
 
     body()
     ov3 = make()
@@ -1579,20 +1737,21 @@ def _sc_override(t, make):
         failing()
     except _Err:
         pass
-    t.diag("exitedByException", ov3, "(plain)")
+    t.diag("exitedByException", ov3, st)
 
 
 def sc_scoped_override(t):
     from asynq import scoped_value
     sv = scoped_value.AsyncScopedValue(1)
-    _sc_override(t, lambda: sv.override(2))
+    _sc_override(t, lambda: sv.override(2), "scopedOverride")
     for name, shape in SHAPES:
         held = scoped_value.AsyncScopedValue(shape)
         ov = held.override(shape)
-        t.diag("fresh:" + name, ov, "(plain)", shows=(shape,))
+        st = _holder("scopedOverride", shape)
+        t.diag("fresh:" + name, ov, st, shows=(shape,))
         with ov:
-            t.diag("entered:" + name, ov, "(plain)", shows=(shape,))
-        t.diag("left:" + name, ov, "(plain)", shows=(shape,))
+            t.diag("entered:" + name, ov, st, shows=(shape,))
+        t.diag("left:" + name, ov, st, shows=(shape,))
 
 
 def sc_prop_override(t):
@@ -1604,13 +1763,14 @@ def sc_prop_override(t):
         def __repr__(self):
             return "Target"
     tg = Target()
-    _sc_override(t, lambda: scoped_value.async_override(tg, "x", 2))
+    _sc_override(t, lambda: scoped_value.async_override(tg, "x", 2), "propOverride")
     for name, shape in SHAPES:
         ov = scoped_value.async_override(tg, "x", shape)
-        t.diag("fresh:" + name, ov, "(plain)", shows=(shape,))
+        st = _holder("propOverride", shape)
+        t.diag("fresh:" + name, ov, st, shows=(shape,))
         with ov:
-            t.diag("entered:" + name, ov, "(plain)", shows=(shape,))
-        t.diag("left:" + name, ov, "(plain)", shows=(shape,))
+            t.diag("entered:" + name, ov, st, shows=(shape,))
+        t.diag("left:" + name, ov, st, shows=(shape,))
 
 
 def sc_async_gen(t):
@@ -1654,10 +1814,23 @@ def sc_async_gen(t):
 
 def sc_gen_value(t):
     from asynq import generator, futures
-    t.diag("plain", generator.Value(3), "(plain)")
-    t.diag("none", generator.Value(None), "(plain)")
-    t.diag("future", generator.Value(futures.ConstFuture(1)), "(plain)")
+    t.diag("plain", generator.Value(3), _holder("genValue", 3), shows=(3,))
+    t.diag("none", generator.Value(None), _holder("genValue", None), shows=(None,))
+    t.diag("future", generator.Value(futures.ConstFuture(1)), _holder("genValue", None))
     t.diag("endOfGenerator", generator.END_OF_GENERATOR, "(plain)")
+    # what an async generator may yield is any value: `yield Value((key, row))`
+    for name, shape in SHAPES:
+        t.diag("holds:" + name, generator.Value(shape), _holder("genValue", shape), shows=(shape,))
+
+
+class _NotAnException(object):
+    pass
+
+
+def _with_tb_attr(tb):
+    o = _NotAnException()
+    o._traceback = tb
+    return o
 
 
 def sc_format_error(t):
@@ -1705,6 +1878,12 @@ def sc_format_error(t):
         ("excNoArgs", _Err(), None, "(fe 0 1 none 0)"),
         ("excStrFails", BadStr(), None, "(fe 0 1 none 0)"),
         ("notAnException", "just a string", None, "(fe 0 0 none 0)"),
+        # outside the statement ("any exception"): modelled and compared, not judged
+        ("exceptionClass", KeyError, None, "(fe 0 0 none 0)"),
+        ("noneTbParam", None, plain_raised.__traceback__, "(fe 1 0 none 1)"),
+        ("notAnExceptionTbParam", "just a string", plain_raised.__traceback__, "(fe 0 0 none 1)"),
+        ("objectTracebackAttr", _with_tb_attr(plain_raised.__traceback__), None, "(fe 0 0 1 0)"),
+        ("objectTracebackAttrNone", _with_tb_attr(None), None, "(fe 0 0 0 0)"),
     ]
     for name, err, tb, state in cases:
         for hl in (1, 0):
